@@ -191,10 +191,32 @@ def find_function(ix, file, name, cls=None):
     return ix.funcs[(file, name)]
 
 
-def emit(ix):
+def emit(ix, failed=None, old_text=''):
+    import re
+    failed = {} if failed is None else failed
     out = ['import MLModel.Calibrate', '/-! GENERATED by /verif/translate/translate.py from /repo/metric_learn — do not edit. -/',
            'namespace MLGen', 'open ML', '']
     for (file, name), spec in SPECS.items():
+        try:
+            part = []
+            emit_one(ix, file, name, spec, part)
+            out += part
+        except Unsupported as e:
+            # keep the previous signature (the driver calls it) with a body that makes every theorem about it fail
+            m = re.search(r'^def ' + re.escape(spec['lean']) + r' (.*?) : Except String (\S+) :=$', old_text, flags=re.M)
+            if m is None:
+                raise
+            failed[f'funcs:{spec["lean"]}'] = str(e)
+            out.append(f'/-- {file}: `{name}` — NOT TRANSCRIBED: {str(e)[:120]} -/')
+            out.append(f'def {spec["lean"]} {m.group(1)} : Except String {m.group(2)} :=')
+            out.append('  .error "untranscribed"')
+            out.append('')
+    out.append('end MLGen')
+    return '\n'.join(out) + '\n'
+
+
+def emit_one(ix, file, name, spec, out):
+    if True:
         fn = find_function(ix, file, name, spec.get('cls'))
         real = [a.arg for a in fn.args.args if a.arg != 'self']
         want = [p for p, _ in spec['params']]
@@ -216,5 +238,3 @@ def emit(ix):
         out.append(f'def {spec["lean"]} {gen}{" ".join(params)} : Except String {spec["ret"]} :=')
         out.append(body)
         out.append('')
-    out.append('end MLGen')
-    return '\n'.join(out) + '\n'
